@@ -81,7 +81,7 @@ def ref(L, p, d, k, s):
 class Frame:
     """one evaluation of one routine; per-path observations are in Outcome.user"""
     def __init__(self, model, fname, args, atoms=None, preds=None, empty=False, Lref=None, contiguous=True):
-        self.model, self.f = model, model.func(CT + '.' + fname)
+        self.model, self.f = model, model.func(fname if '.' in fname else CT + '.' + fname)
         self.empty, self.Lref = empty, Lref
         me = self
 
@@ -120,6 +120,11 @@ class Frame:
             if n in ('numpy.repeat', 'numpy.tile', 'numpy.arange'):
                 U(pe, 'allocs').append((func.name, n, None))
                 return NotImplemented
+            if n in ('numpy.max', 'numpy.amax', 'numpy.mean', 'numpy.min', 'numpy.amin', 'numpy.sum') and args and isinstance(args[0], (Arr, P)):
+                a0 = arr(args[0], pe)
+                ax = kw.get('axis', args[1] if len(args) > 1 else None)
+                U(pe, 'reducers').append((func.name, n.split('.')[-1].replace('amax', 'max').replace('amin', 'min'), a0, ax, sorted(k for k in kw if k != 'axis')))
+                return a0.op(('reduce', n.split('.')[-1], ax))
             if n == 'numpy.add.at' and len(args) == 3:
                 U(pe, 'scatters').append((func.name, args[0], args[1], args[2]))
                 return None
@@ -604,3 +609,60 @@ def _try(R, rule, thunk):
     except Incomplete as u:
         R.incomplete_at(rule, CT, str(u))
         return None
+
+
+def check_pool_forward(model, R, P_):
+    """pooling forward kernels evaluated on a symbolic input: padding value, window geometry roles, reducer over the WHOLE window, output layout"""
+    R.rule(P_ + '.PAD', 'max pooling pads with -inf (padding never wins), average pooling with 0 (padded zeros are counted); the reducer runs over the whole window '
+                        '(both kernel axes merged) and the result is laid out as (N, C, windows...)  [pooling kernels evaluated on symbolic shapes]', floor=4)
+    k, d, s, p = G()
+    for q, want_pad, red, dims in (('max_pool1d_forward', 'ninf', 'max', 1), ('max_pool2d_forward', 'ninf', 'max', 2), ('avg_pool1d_forward', 0, 'mean', 1), ('avg_pool2d_forward', 0, 'mean', 2)):
+        f = model.func('synapgrad.cpu_ops.' + q)
+        shape = NCHW if dims == 2 else NCW
+        try:
+            fr = Frame(model, 'synapgrad.cpu_ops.' + q, dict(geom_args(f), a=A('a')), atoms={'a.shape': shape, 'len(a.shape)': len(shape)})
+        except Incomplete as u:
+            R.incomplete_at(P_ + '.PAD', f.qualname, str(u))
+            continue
+        rs = fr.returns()
+        ok = len(rs) >= 1
+        why = []
+        for o in rs:
+            pads = o.user.get('pads', [])
+            if len(pads) != 1:
+                why.append('pads: %d' % len(pads))
+                continue
+            cv = pads[0][3].get('constant_values')
+            if want_pad == 'ninf':
+                okp = (isinstance(cv, P) and (cv == -A('np.inf') or cv == -A('numpy.inf') or cv == -A('math.inf'))) or (isinstance(cv, float) and cv == float('-inf'))
+            else:
+                okp = (isinstance(cv, (int, float)) and not isinstance(cv, bool) and cv == 0) or (isinstance(cv, P) and cv.is_const() and cv.const_value() == 0)
+            if not okp:
+                why.append('pad value %s' % show(cv))
+            # geometry reaches extract_windows in its own role: the padded shape and window counts of the view
+            st = o.user.get('strided', [])
+            cn = counts('stride', dims)
+            if len(st) != 1 or not isinstance(st[0][2], (tuple, list)) or not eq(tuple(st[0][2]), tuple(cn) + tuple(shape[:2]) + tuple(k[:dims])):
+                why.append('window view shape %s' % (show(st[0][2])[:120] if st else None))
+            reds = [r for r in o.user.get('reducers', []) if r[0] == q]
+            if len(reds) != 1 or reds[0][1] != red or reds[0][4]:
+                why.append('reducers %s' % [(r[1], r[4]) for r in reds])
+                continue
+            _, _, src, ax, _ = reds[0]
+            rank_after = len(shape) + dims - (dims - 1)          # (counts.., N, C, k..) with the kernel axes merged into one
+            merged = [o_ for o_ in src.ops if o_[0] == 'reshape']
+            if dims == 2:
+                want_shape = tuple(cn) + tuple(shape[:2])
+                okm = len(merged) == 1 and isinstance(merged[0][1], tuple) and len(merged[0][1]) == len(want_shape) + 1 and eq(tuple(merged[0][1][:-1]), want_shape) \
+                    and (merged[0][1][-1] == -1 or eq(merged[0][1][-1], k[0] * k[1])) and src.base == 'windows'
+            else:
+                okm = not merged and src.base == 'windows'
+            if not okm or ax not in (-1, rank_after - 1):
+                why.append('reduced array %r over axis %r' % (src, ax))
+            v = o.value
+            out = v[0] if isinstance(v, (tuple, list)) and v else v
+            perm = (1, 2, 0) if dims == 1 else (2, 3, 0, 1)
+            if not (isinstance(out, Arr) and out.ops and out.ops[-1] == ('transpose', perm)):
+                why.append('output layout %r' % (out,))
+        R.ob(P_ + '.PAD', f.qualname, 'pad %s, %s over the whole window, layout (N, C, windows..)' % ('-inf' if want_pad == 'ninf' else 0, red), ok and not why,
+             'documented pooling: %s' % why[:3], f.loc)
